@@ -379,3 +379,121 @@ class MAlloc(Model):
   def apply(self, B, st, op, args, tid):
     nx = st[self.v("next")]
     return [(B.true(), "ok", nx, {self.v("next"): B.add(nx, B.const(1))})]
+
+
+class MLists(Model):
+  """a pool of python lists created at run time (the values of a dict of lists): list number 1..n, each with up to `cells` elements.
+  new(x) takes the next free list and initialises it with [x]; the other operations take the list number as their first argument.
+  iter_next(li, i) is one step of a list iterator: element i, or StopIteration once i >= len (the live length, as CPython does)."""
+  cls = "lists"
+
+  def __init__(self, name, nlists, cells):
+    super().__init__(name)
+    self.nlists, self.cells = nlists, cells
+
+  def init(self):
+    d = {self.v("next"): 1}
+    for j in range(self.nlists):
+      d[self.v("len%d" % j)] = 0
+      for i in range(self.cells):
+        d[self.v("c%d_%d" % (j, i))] = 0
+    return d
+
+  def apply(self, B, st, op, args, tid):
+    K = B.const
+    T = B.true()
+    nx = st[self.v("next")]
+    if op == "new":
+      x = args[0]
+      up = {self.v("next"): B.add(nx, K(1))}
+      for j in range(self.nlists):
+        me = B.eq(nx, K(j + 1))
+        up[self.v("len%d" % j)] = B.ite(me, K(1), st[self.v("len%d" % j)])
+        up[self.v("c%d_0" % j)] = B.ite(me, x, st[self.v("c%d_0" % j)])
+      room = B.ule(nx, K(self.nlists))
+      return [(room, "ok", nx, up), (B.not_(room), "exc:ModelCapacity", None, {})]
+    li = args[0]
+    lens = [st[self.v("len%d" % j)] for j in range(self.nlists)]
+    ln = K(0)
+    for j in reversed(range(self.nlists)):
+      ln = B.ite(B.eq(li, K(j + 1)), lens[j], ln)
+
+    def elem(i):
+      out = K(0)
+      for j in reversed(range(self.nlists)):
+        for c in reversed(range(self.cells)):
+          out = B.ite(B.and_(B.eq(li, K(j + 1)), B.eq(i, K(c))), st[self.v("c%d_%d" % (j, c))], out)
+      return out
+    if op == "__len__":
+      return [(T, "ok", ln, {})]
+    if op == "append":
+      x = args[1]
+      up = {}
+      for j in range(self.nlists):
+        me = B.eq(li, K(j + 1))
+        up[self.v("len%d" % j)] = B.ite(me, B.add(lens[j], K(1)), lens[j])
+        for c in range(self.cells):
+          up[self.v("c%d_%d" % (j, c))] = B.ite(B.and_(me, B.eq(lens[j], K(c))), x, st[self.v("c%d_%d" % (j, c))])
+      room = B.ult(ln, K(self.cells))
+      return [(room, "ok", K(NONE), up), (B.not_(room), "exc:ModelCapacity", None, {})]
+    if op == "iter_next":
+      i = args[1]
+      more = B.ult(i, ln)
+      return [(more, "ok", elem(i), {}), (B.not_(more), "exc:StopIteration", None, {})]
+    if op == "getitem":
+      i = args[1]
+      ok = B.ult(i, ln)
+      return [(ok, "ok", elem(i), {}), (B.not_(ok), "exc:IndexError", None, {})]
+    raise NotImplementedError("lists.%s" % op)
+
+
+class MItemQueue(Model):
+  """queue.PriorityQueue holding records: items leave by (priority, arrival order); `prio` maps a record number to its priority.
+  The ordering itself (FabricEvent.__lt__ on the real heap) is C08's E1 subject; here the queue is the contract."""
+  cls = "PriorityQueue"
+
+  def __init__(self, name, cells, prio):
+    super().__init__(name)
+    self.n, self.prio = cells, dict(prio)
+
+  def init(self):
+    d = {self.v("len"): 0, self.v("unf"): 0}
+    for i in range(self.n):
+      d[self.v("c%d" % i)] = 0
+    return d
+
+  def priority(self, B, x):
+    out = B.const(0)
+    for rid, p in self.prio.items():
+      out = B.ite(B.eq(x, B.const(rid)), B.const(p), out)
+    return out
+
+  def apply(self, B, st, op, args, tid):
+    K = B.const
+    T = B.true()
+    ln, unf = st[self.v("len")], st[self.v("unf")]
+    c = [st[self.v("c%d" % i)] for i in range(self.n)]
+    if op == "put":
+      x = args[0]
+      px = self.priority(B, x)
+      # position = number of queued items whose priority is <= the new one's (stable)
+      pos = K(0)
+      for i in range(self.n):
+        pos = B.add(pos, B.ite(B.and_(B.ult(K(i), ln), B.ule(self.priority(B, c[i]), px)), K(1), K(0)))
+      up = {self.v("len"): B.add(ln, K(1)), self.v("unf"): B.add(unf, K(1))}
+      for i in range(self.n):
+        before = c[i]
+        shifted = c[i - 1] if i > 0 else K(0)
+        up[self.v("c%d" % i)] = B.ite(B.ult(K(i), pos), before, B.ite(B.eq(K(i), pos), x, B.ite(B.ule(K(i), ln), shifted, K(0))))
+      room = B.ult(ln, K(self.n))
+      return [(room, "ok", K(NONE), up), (B.not_(room), "exc:ModelCapacity", None, {})]
+    if op == "get":
+      up = {self.v("len"): B.sub(ln, K(1))}
+      for i in range(self.n):
+        up[self.v("c%d" % i)] = c[i + 1] if i + 1 < self.n else K(0)
+      return [(B.not_(B.eq(ln, K(0))), "ok", c[0], up)]
+    if op == "task_done":
+      return [(B.not_(B.eq(unf, K(0))), "ok", K(NONE), {self.v("unf"): B.sub(unf, K(1))}), (B.eq(unf, K(0)), "exc:ValueError", None, {})]
+    if op == "qsize":
+      return [(T, "ok", ln, {})]
+    raise NotImplementedError("PriorityQueue.%s" % op)
